@@ -1,7 +1,1036 @@
-//! C23 — not built yet.
-use vcore::Ctx;
+//! C23 — all HTTP request encodings decode to the same request; batches keep order.
+//!
+//! A generated request (query text, operation name, variables, extensions) is written by this module's own
+//! encoders as a JSON body, as an element of a JSON batch, as a GET query string and as the `operations` part of
+//! a multipart/form-data body; every decoded `Request` must equal the original. Batches must decode in order and
+//! `Schema::execute_batch` must answer in request order whatever the completion order. Malformed encodings must
+//! be rejected with `Err`.
+use async_graphql::http::{parse_query_string, receive_batch_body, receive_body, receive_json, MultipartOptions};
+use async_graphql::{BatchRequest, BatchResponse, EmptyMutation, EmptySubscription, Object, Request, Schema};
+use serde_json::{Map, Number, Value};
+use std::time::Instant;
+use vcore::det::{block_on, run_with_gates, Gates};
+use vcore::gens::*;
+use vcore::{Case, Ctx, Src};
 
-pub fn run(_ctx: &mut Ctx) {
-    eprintln!("C23: check not built yet");
-    std::process::exit(2);
+// ---------------------------------------------------------------------------------------------------------
+// the abstract request and its generator
+
+#[derive(Clone, Debug, PartialEq)]
+struct Req {
+    query: String,
+    op: Option<String>,
+    vars: Map<String, Value>,
+    ext: Map<String, Value>,
+}
+
+/// floats whose shortest decimal form is parsed back exactly by any JSON reader (dyadic rationals, short decimals)
+fn gen_float(s: &mut dyn Src) -> f64 {
+    match s.choose(3) {
+        0 => s.range(-1000, 1000) as f64 / 8.0,
+        1 => *pick(s, &[0.1, 1.5e10, 1e21, -2.5e-7, 1.0, 123456.789]),
+        _ => s.range(-1_000_000, 1_000_000) as f64 / 100.0,
+    }
+}
+
+fn gen_key(s: &mut dyn Src) -> String {
+    if s.chance(1, 5) {
+        let k = gen_string(s, 5);
+        if !k.is_empty() {
+            return k;
+        }
+    }
+    gen_name(s, 5)
+}
+
+fn gen_obj(s: &mut dyn Src, depth: usize, max: usize) -> Map<String, Value> {
+    let n = s.choose(max + 1);
+    let mut m = Map::new();
+    for _ in 0..n {
+        let k = gen_key(s);
+        let v = gen_json(s, depth);
+        m.insert(k, v); // a repeated key overwrites: keys stay distinct
+    }
+    m
+}
+
+fn gen_json(s: &mut dyn Src, depth: usize) -> Value {
+    let k = if depth == 0 { s.choose(5) } else { s.weighted(&[2, 3, 4, 6, 2, 4, 5]) };
+    match k {
+        0 => Value::Null,
+        1 => Value::Bool(s.bool()),
+        2 => match s.choose(3) {
+            0 | 1 => Value::Number(Number::from(gen_i64(s))),
+            _ => Value::Number(Number::from(u64::MAX - s.choose(1000) as u64)),
+        },
+        3 => Value::String(gen_string(s, 8)),
+        4 => Value::Number(Number::from_f64(gen_float(s)).unwrap()),
+        5 => {
+            let n = s.choose(4);
+            Value::Array((0..n).map(|_| gen_json(s, depth - 1)).collect())
+        }
+        _ => Value::Object(gen_obj(s, depth - 1, 3)),
+    }
+}
+
+/// query text: arbitrary characters with the transport-significant ones over-represented
+fn gen_query(s: &mut dyn Src) -> String {
+    let n = s.choose(24);
+    let mut q = String::new();
+    for _ in 0..n {
+        match s.weighted(&[4, 5, 2, 2]) {
+            0 => q.push(*pick(s, &['&', '=', '%', '+', '#', ' ', '"', '\'', ';', '?', '/', '\\', '{', '}', '(', ')', ':', '$', '!', '@', ','])),
+            1 => q.push(gen_char(s)),
+            2 => q.push_str(*pick(s, &["%41", "%zz", "%", "+", "&query=x", "=%3D", "\r\n", "--", "query", "é=ß&"])),
+            _ => q.push_str(*pick(s, &["{ a }", "query Q($v: Int) { f(a: $v) }", "mutation M", "…", "日本語", "😀"])),
+        }
+    }
+    q
+}
+
+fn gen_req(s: &mut dyn Src) -> Req {
+    let query = gen_query(s);
+    let op = match s.choose(3) {
+        0 => None,
+        1 => Some(gen_name(s, 6)),
+        _ => Some(gen_query(s)),
+    };
+    let vars = gen_obj(s, 3, 3);
+    let ext = gen_obj(s, 2, 2);
+    Req { query, op, vars, ext }
+}
+
+// ---------------------------------------------------------------------------------------------------------
+// own encoders
+
+#[derive(Clone, Copy)]
+struct JStyle {
+    ws: bool,
+    esc_non_ascii: bool,
+    esc_slash: bool,
+}
+fn gen_jstyle(s: &mut dyn Src) -> JStyle {
+    JStyle { ws: s.chance(1, 3), esc_non_ascii: s.chance(1, 3), esc_slash: s.chance(1, 4) }
+}
+
+fn json_str(x: &str, st: JStyle, out: &mut String) {
+    out.push('"');
+    for c in x.chars() {
+        match c {
+            '"' => out.push_str("\\\""),
+            '\\' => out.push_str("\\\\"),
+            '\n' => out.push_str("\\n"),
+            '\r' => out.push_str("\\r"),
+            '\t' => out.push_str("\\t"),
+            '/' if st.esc_slash => out.push_str("\\/"),
+            c if (c as u32) < 0x20 => out.push_str(&format!("\\u{:04x}", c as u32)),
+            c if (c as u32) >= 0x7f && st.esc_non_ascii => {
+                let mut b = [0u16; 2];
+                for u in c.encode_utf16(&mut b) {
+                    out.push_str(&format!("\\u{:04X}", u));
+                }
+            }
+            c => out.push(c),
+        }
+    }
+    out.push('"');
+}
+
+fn json_text(v: &Value, st: JStyle, out: &mut String) {
+    let sp = if st.ws { " " } else { "" };
+    match v {
+        Value::Null => out.push_str("null"),
+        Value::Bool(b) => out.push_str(if *b { "true" } else { "false" }),
+        Value::Number(n) => out.push_str(&n.to_string()),
+        Value::String(x) => json_str(x, st, out),
+        Value::Array(a) => {
+            out.push('[');
+            for (i, x) in a.iter().enumerate() {
+                if i > 0 {
+                    out.push(',');
+                    out.push_str(sp);
+                }
+                json_text(x, st, out);
+            }
+            out.push(']');
+        }
+        Value::Object(m) => {
+            out.push('{');
+            out.push_str(sp);
+            for (i, (k, x)) in m.iter().enumerate() {
+                if i > 0 {
+                    out.push(',');
+                    out.push_str(if st.ws { "\n  " } else { "" });
+                }
+                json_str(k, st, out);
+                out.push(':');
+                out.push_str(sp);
+                json_text(x, st, out);
+            }
+            out.push_str(sp);
+            out.push('}');
+        }
+    }
+}
+
+/// how the optional members of one request object are spelled
+#[derive(Clone, Copy)]
+struct Presence {
+    /// operationName None: 0 = member absent, 1 = null
+    op_none: usize,
+    /// empty variables / extensions: 0 = absent, 1 = null, 2 = {}
+    vars_empty: usize,
+    ext_empty: usize,
+    /// rotation of the member order
+    rot: usize,
+}
+fn gen_presence(s: &mut dyn Src) -> Presence {
+    Presence { op_none: s.choose(2), vars_empty: s.choose(3), ext_empty: s.choose(3), rot: s.choose(4) }
+}
+
+/// the JSON object of one request (GraphQL-over-HTTP member names)
+fn req_json(r: &Req, p: Presence, st: JStyle) -> String {
+    let mut members: Vec<(&str, String)> = vec![];
+    let mut q = String::new();
+    json_str(&r.query, st, &mut q);
+    members.push(("query", q));
+    match (&r.op, p.op_none) {
+        (Some(o), _) => {
+            let mut t = String::new();
+            json_str(o, st, &mut t);
+            members.push(("operationName", t));
+        }
+        (None, 1) => members.push(("operationName", "null".into())),
+        _ => {}
+    }
+    for (key, m, how) in [("variables", &r.vars, p.vars_empty), ("extensions", &r.ext, p.ext_empty)] {
+        if m.is_empty() && how == 0 {
+            continue;
+        }
+        if m.is_empty() && how == 1 {
+            members.push((key, "null".into()));
+            continue;
+        }
+        let mut t = String::new();
+        json_text(&Value::Object(m.clone()), st, &mut t);
+        members.push((key, t));
+    }
+    let k = p.rot % members.len();
+    members.rotate_left(k);
+    let body: Vec<String> = members.iter().map(|(k, v)| format!("\"{}\":{}{}", k, if st.ws { " " } else { "" }, v)).collect();
+    format!("{{{}}}", body.join(if st.ws { ", " } else { "," }))
+}
+
+#[derive(Clone, Copy)]
+struct PctStyle {
+    plus_for_space: bool,
+    lower_hex: bool,
+    /// leave characters that may appear literally in a query component (RFC 3986 pchar minus `& + ;`) unescaped
+    raw_legal: bool,
+    /// also escape unreserved characters now and then
+    over_encode: bool,
+}
+
+/// own application/x-www-form-urlencoded value encoder
+fn pct(x: &str, st: PctStyle, out: &mut String) {
+    for (i, b) in x.bytes().enumerate() {
+        let unreserved = b.is_ascii_alphanumeric() || matches!(b, b'-' | b'_' | b'.' | b'~');
+        let legal_raw = matches!(b, b'!' | b'*' | b'\'' | b'(' | b')' | b'/' | b':' | b'@' | b'?' | b',' | b'$' | b'=');
+        if b == b' ' && st.plus_for_space {
+            out.push('+');
+        } else if (unreserved && !(st.over_encode && i % 3 == 1)) || (legal_raw && st.raw_legal) {
+            out.push(b as char);
+        } else if st.lower_hex {
+            out.push_str(&format!("%{:02x}", b));
+        } else {
+            out.push_str(&format!("%{:02X}", b));
+        }
+    }
+}
+
+/// GET query string with the standard keys; absent members are omitted
+fn req_query_string(r: &Req, st: PctStyle, js: JStyle, rot: usize, empty_as_braces: bool) -> String {
+    let mut pairs: Vec<(&str, String)> = vec![("query", r.query.clone())];
+    if let Some(o) = &r.op {
+        pairs.push(("operationName", o.clone()));
+    }
+    for (key, m) in [("variables", &r.vars), ("extensions", &r.ext)] {
+        if m.is_empty() && !empty_as_braces {
+            continue;
+        }
+        let mut t = String::new();
+        json_text(&Value::Object(m.clone()), js, &mut t);
+        pairs.push((key, t));
+    }
+    let k = rot % pairs.len();
+    pairs.rotate_left(k);
+    let mut out = String::new();
+    for (i, (k, v)) in pairs.iter().enumerate() {
+        if i > 0 {
+            out.push('&');
+        }
+        out.push_str(k);
+        out.push('=');
+        pct(v, st, &mut out);
+    }
+    out
+}
+
+struct Part {
+    name: String,
+    filename: Option<String>,
+    content_type: Option<String>,
+    data: Vec<u8>,
+}
+
+#[derive(Clone, Copy)]
+struct MpStyle {
+    preamble: bool,
+    trailing_crlf: bool,
+}
+
+/// A boundary (RFC 2046 bchars subset that needs no quoting) that occurs in none of the parts.
+fn gen_boundary(s: &mut dyn Src, parts: &[Part]) -> String {
+    let n = 1 + s.choose(30);
+    let mut b: String = (0..n)
+        .map(|_| match s.choose(4) {
+            0 => (b'a' + s.choose(26) as u8) as char,
+            1 => (b'A' + s.choose(26) as u8) as char,
+            2 => (b'0' + s.choose(10) as u8) as char,
+            _ => *pick(s, &['-', '_']),
+        })
+        .collect();
+    // a delimiter is CRLF "--" boundary: extend the boundary until no part body contains it
+    let mut k = 0u32;
+    while parts.iter().any(|p| contains(&p.data, b.as_bytes())) {
+        b.push((b'0' + (k % 10) as u8) as char);
+        k += 1;
+    }
+    b
+}
+fn contains(h: &[u8], n: &[u8]) -> bool {
+    h.len() >= n.len() && h.windows(n.len()).any(|w| w == n)
+}
+
+/// own multipart/form-data writer (RFC 7578 / RFC 2046)
+fn write_multipart(boundary: &str, parts: &[Part], st: MpStyle) -> Vec<u8> {
+    let mut out = vec![];
+    if st.preamble {
+        out.extend_from_slice(b"preamble text\r\n");
+    }
+    for p in parts {
+        out.extend_from_slice(format!("--{}\r\n", boundary).as_bytes());
+        out.extend_from_slice(format!("Content-Disposition: form-data; name=\"{}\"", p.name).as_bytes());
+        if let Some(f) = &p.filename {
+            out.extend_from_slice(format!("; filename=\"{}\"", f).as_bytes());
+        }
+        out.extend_from_slice(b"\r\n");
+        if let Some(ct) = &p.content_type {
+            out.extend_from_slice(format!("Content-Type: {}\r\n", ct).as_bytes());
+        }
+        out.extend_from_slice(b"\r\n");
+        out.extend_from_slice(&p.data);
+        out.extend_from_slice(b"\r\n");
+    }
+    out.extend_from_slice(format!("--{}--", boundary).as_bytes());
+    if st.trailing_crlf {
+        out.extend_from_slice(b"\r\n");
+    }
+    out
+}
+
+fn operations_parts(ops: String, ops_ct: bool) -> Vec<Part> {
+    vec![
+        Part { name: "operations".into(), filename: None, content_type: if ops_ct { Some("application/json".into()) } else { None }, data: ops.into_bytes() },
+        Part { name: "map".into(), filename: None, content_type: None, data: b"{}".to_vec() },
+    ]
+}
+
+// ---------------------------------------------------------------------------------------------------------
+// observation
+
+fn view(r: &Request) -> Result<Req, String> {
+    let vars = match serde_json::to_value(&r.variables).map_err(|e| e.to_string())? {
+        Value::Object(m) => m,
+        x => return Err(format!("variables serialise as {}", x)),
+    };
+    let ext = match serde_json::to_value(&r.extensions).map_err(|e| e.to_string())? {
+        Value::Object(m) => m,
+        x => return Err(format!("extensions serialise as {}", x)),
+    };
+    Ok(Req { query: r.query.clone(), op: r.operation_name.clone(), vars, ext })
+}
+
+/// None if the decoded request equals the original, else what differs
+fn differs(orig: &Req, got: &Request) -> Option<String> {
+    match view(got) {
+        Err(e) => Some(e),
+        Ok(v) => {
+            if v == *orig {
+                None
+            } else {
+                Some(format!("decoded {:?}", v))
+            }
+        }
+    }
+}
+
+fn opts() -> MultipartOptions {
+    MultipartOptions::default()
+}
+
+fn decode_json_single(body: &str, with_ct: bool) -> Result<Request, String> {
+    if with_ct {
+        block_on(receive_body(Some("application/json"), body.as_bytes(), opts())).map_err(|e| e.to_string())
+    } else {
+        block_on(receive_json(body.as_bytes())).map_err(|e| e.to_string())
+    }
+}
+fn decode_batch(ct: &str, body: &[u8]) -> Result<BatchRequest, String> {
+    block_on(receive_batch_body(Some(ct), body, opts())).map_err(|e| e.to_string())
+}
+
+// ---------------------------------------------------------------------------------------------------------
+// cases
+
+fn lossy(b: &[u8]) -> String {
+    String::from_utf8_lossy(b).into_owned()
+}
+
+/// one request in all four transport forms
+fn all_forms_case(s: &mut dyn Src, get_with_op: bool) -> Case {
+    // style and shape decisions first, so that short choice vectors still vary them
+    let js = gen_jstyle(s);
+    let pres = gen_presence(s);
+    let ps = PctStyle { plus_for_space: s.bool(), lower_hex: s.bool(), raw_legal: s.bool(), over_encode: s.chance(1, 4) };
+    let (json_with_ct, get_rot, get_braces, ops_ct, quoted) = (s.bool(), s.choose(4), s.bool(), s.bool(), s.bool());
+    let mps = MpStyle { preamble: s.chance(1, 4), trailing_crlf: s.bool() };
+    let n = 1 + s.choose(4);
+    let at = s.choose(n);
+    let r = gen_req(s);
+    let special = r.query.chars().any(|c| "&=%+#".contains(c)) || r.query.chars().any(|c| !c.is_ascii());
+    let nested = r.vars.values().any(|v| matches!(v, Value::Object(_) | Value::Array(_)));
+    let mut text = format!("request={:?}", r);
+    let mut fails: Vec<String> = vec![];
+
+    // 1. JSON body
+    let body = req_json(&r, pres, js);
+    text.push_str(&format!("\n json={}", body));
+    match decode_json_single(&body, json_with_ct) {
+        Err(e) => fails.push(format!("JSON body rejected: {}", e)),
+        Ok(got) => {
+            if let Some(d) = differs(&r, &got) {
+                fails.push(format!("JSON body: {}", d));
+            }
+        }
+    }
+
+    // 2. element of a JSON batch
+    let others: Vec<Req> = (0..n - 1).map(|_| gen_req(s)).collect();
+    let mut all: Vec<&Req> = others.iter().collect();
+    all.insert(at, &r);
+    let batch_body = format!("[{}]", all.iter().map(|x| req_json(x, pres, js)).collect::<Vec<_>>().join(if js.ws { " ,\n" } else { "," }));
+    text.push_str(&format!("\n batch[{} of {}]={}", at, n, batch_body));
+    match decode_batch("application/json", batch_body.as_bytes()) {
+        Err(e) => fails.push(format!("JSON batch rejected: {}", e)),
+        Ok(BatchRequest::Single(_)) => fails.push("JSON array decoded as a single request".into()),
+        Ok(BatchRequest::Batch(v)) => {
+            if v.len() != n {
+                fails.push(format!("batch of {} decoded to {} requests", n, v.len()));
+            } else {
+                for (i, (o, g)) in all.iter().zip(v.iter()).enumerate() {
+                    if let Some(d) = differs(o, g) {
+                        fails.push(format!("batch element {}: {}", i, d));
+                    }
+                }
+            }
+        }
+    }
+
+    // 3. GET query string
+    let rq = if get_with_op { r.clone() } else { Req { op: None, ..r.clone() } };
+    let qs = req_query_string(&rq, ps, js, get_rot, get_braces);
+    text.push_str(&format!("\n get={}", qs));
+    match parse_query_string(&qs) {
+        Err(e) => fails.push(format!("query string rejected: {}", e)),
+        Ok(got) => {
+            if let Some(d) = differs(&rq, &got) {
+                fails.push(format!("query string: {}", d));
+            }
+        }
+    }
+
+    // 4. multipart operations part
+    let parts = operations_parts(body.clone(), ops_ct);
+    let boundary = gen_boundary(s, &parts);
+    let mp = write_multipart(&boundary, &parts, mps);
+    let ct = if quoted { format!("multipart/form-data; boundary=\"{}\"", boundary) } else { format!("multipart/form-data; boundary={}", boundary) };
+    text.push_str(&format!("\n multipart content-type={} body={:?}", ct, lossy(&mp)));
+    match block_on(receive_body(Some(ct.as_str()), &mp[..], opts())) {
+        Err(e) => fails.push(format!("multipart rejected: {}", e)),
+        Ok(got) => {
+            if let Some(d) = differs(&r, &got) {
+                fails.push(format!("multipart operations: {}", d));
+            }
+        }
+    }
+
+    let c = if fails.is_empty() { Case::pass(text) } else { Case::fail(text, fails.join("; ")) };
+    c.nontrivial(special && !r.vars.is_empty())
+        .class_if(special, "query-with-transport-specials")
+        .class_if(nested, "nested-variables")
+        .class_if(r.op.is_some(), "operation-name")
+        .class_if(!r.ext.is_empty(), "extensions")
+        .class_if(n > 1, "batch>1")
+}
+
+/// GET with the standard `operationName` key (the construct of C23-F1)
+fn get_opname_case(s: &mut dyn Src, f1_open: bool) -> Case {
+    let mut r = gen_req(s);
+    if r.op.is_none() {
+        r.op = Some(gen_name(s, 6));
+    }
+    let ps = PctStyle { plus_for_space: s.bool(), lower_hex: s.bool(), raw_legal: s.bool(), over_encode: false };
+    let qs = req_query_string(&r, ps, gen_jstyle(s), s.choose(4), s.bool());
+    let text = format!("request={:?}\n get={}", r, qs);
+    let got = match parse_query_string(&qs) {
+        Err(e) => return Case::fail(text, format!("query string rejected: {}", e)),
+        Ok(g) => g,
+    };
+    let c = match differs(&r, &got) {
+        None => Case::pass(text),
+        Some(d) => {
+            // quirk C23-F1: the `operationName` pair is not read, everything else decodes as specified
+            let quirk = Req { op: None, ..r.clone() };
+            if f1_open && differs(&quirk, &got).is_none() {
+                Case::known(text, vec!["C23-F1".into()])
+            } else {
+                Case::fail(text, format!("query string: {}", d))
+            }
+        }
+    };
+    c.nontrivial(true).class("get-operationName")
+}
+
+/// A JSON array where a request object belongs (the construct of C23-F2; `[]`, the empty batch, is its simplest
+/// member). The protocol knows request objects and arrays of request objects only, so the answer is Err.
+fn array_request_case(s: &mut dyn Src, f2_open: bool) -> Case {
+    let k = s.choose(5);
+    let place = s.choose(3);
+    let js = gen_jstyle(s);
+    let r = gen_req(s);
+    let mut els: Vec<String> = vec![];
+    let mut q = String::new();
+    json_str(&r.query, js, &mut q);
+    els.push(q);
+    els.push(match &r.op {
+        None => "null".to_string(),
+        Some(o) => {
+            let mut t = String::new();
+            json_str(o, js, &mut t);
+            t
+        }
+    });
+    for m in [&r.vars, &r.ext] {
+        let mut t = String::new();
+        json_text(&Value::Object(m.clone()), js, &mut t);
+        els.push(t);
+    }
+    let arr = format!("[{}]", els[..k].join(if js.ws { ", " } else { "," }));
+    // quirk C23-F2: the array is read positionally as (query, operationName, variables, extensions), missing tail = defaults
+    let positional = Req {
+        query: if k > 0 { r.query.clone() } else { String::new() },
+        op: if k > 1 { r.op.clone() } else { None },
+        vars: if k > 2 { r.vars.clone() } else { Map::new() },
+        ext: if k > 3 { r.ext.clone() } else { Map::new() },
+    };
+    let pres = gen_presence(s);
+    let (text, res, quirk): (String, Result<BatchRequest, String>, Vec<Req>) = match place {
+        0 => (format!("array in place of the request object: {}", arr), decode_batch("application/json", arr.as_bytes()), vec![positional]),
+        1 => {
+            let n = 1 + s.choose(2);
+            let at = s.choose(n + 1);
+            let mut reqs: Vec<Req> = (0..n).map(|_| gen_req(s)).collect();
+            let mut texts: Vec<String> = reqs.iter().map(|x| req_json(x, pres, js)).collect();
+            texts.insert(at, arr.clone());
+            reqs.insert(at, positional);
+            let body = format!("[{}]", texts.join(","));
+            (format!("array in place of batch element {}: {}", at, body), decode_batch("application/json", body.as_bytes()), reqs)
+        }
+        _ => {
+            let parts = operations_parts(arr.clone(), s.bool());
+            let boundary = gen_boundary(s, &parts);
+            let mp = write_multipart(&boundary, &parts, MpStyle { preamble: false, trailing_crlf: true });
+            let ct = format!("multipart/form-data; boundary={}", boundary);
+            (format!("array as multipart operations: content-type={} body={:?}", ct, lossy(&mp)), decode_batch(&ct, &mp), vec![positional])
+        }
+    };
+    let c = match res {
+        Err(_) => Case::pass(text),
+        Ok(b) => {
+            let got: Vec<&Request> = b.iter().collect();
+            let shape_ok = matches!(b, BatchRequest::Single(_)) == (place != 1);
+            if f2_open && shape_ok && got.len() == quirk.len() && quirk.iter().zip(got.iter()).all(|(w, g)| differs(w, g).is_none()) {
+                Case::known(text, vec!["C23-F2".into()])
+            } else {
+                Case::fail(text, format!("an array in request position was accepted: {}", show_batch(&b)))
+            }
+        }
+    };
+    c.nontrivial(true).class("array-in-request-position").class_if(k == 0 && place == 0, "empty-batch")
+}
+
+/// WHATWG application/x-www-form-urlencoded value decoding (lenient: a `%` not followed by two hex digits stays)
+fn whatwg_decode(x: &str) -> String {
+    let b = x.as_bytes();
+    let mut out = vec![];
+    let mut i = 0;
+    while i < b.len() {
+        if b[i] == b'+' {
+            out.push(b' ');
+            i += 1;
+        } else if b[i] == b'%' && i + 2 < b.len() && (b[i + 1] as char).is_ascii_hexdigit() && (b[i + 2] as char).is_ascii_hexdigit() {
+            out.push(u8::from_str_radix(&x[i + 1..i + 3], 16).unwrap());
+            i += 3;
+        } else {
+            out.push(b[i]);
+            i += 1;
+        }
+    }
+    String::from_utf8_lossy(&out).into_owned()
+}
+
+const WRONG_QUERY: [&str; 4] = ["42", "true", "[\"{ a }\"]", "{\"q\":1}"];
+const WRONG_OP: [&str; 4] = ["7", "false", "[\"A\"]", "{}"];
+const WRONG_MAP: [&str; 5] = ["[]", "[1]", "\"{}\"", "3", "true"];
+
+/// a request object in which one member has a JSON type the protocol does not allow
+fn wrong_type_json(s: &mut dyn Src, r: &Req, js: JStyle) -> (String, String) {
+    let mut q = String::new();
+    json_str(&r.query, js, &mut q);
+    let mut v = String::new();
+    json_text(&Value::Object(r.vars.clone()), js, &mut v);
+    match s.choose(4) {
+        0 => {
+            let w = *pick(s, &WRONG_QUERY);
+            (format!("{{\"query\":{},\"variables\":{}}}", w, v), format!("query is {}", w))
+        }
+        1 => {
+            let w = *pick(s, &WRONG_OP);
+            (format!("{{\"query\":{},\"operationName\":{}}}", q, w), format!("operationName is {}", w))
+        }
+        2 => {
+            let w = *pick(s, &WRONG_MAP);
+            (format!("{{\"query\":{},\"variables\":{}}}", q, w), format!("variables is {}", w))
+        }
+        _ => {
+            let w = *pick(s, &WRONG_MAP);
+            (format!("{{\"variables\":{},\"query\":{},\"extensions\":{}}}", v, q, w), format!("extensions is {}", w))
+        }
+    }
+}
+
+fn must_reject<T>(text: String, what: &str, res: Result<T, String>, show: impl Fn(&T) -> String) -> Case {
+    match res {
+        Err(_) => Case::pass(text),
+        Ok(t) => Case::fail(text, format!("{} was accepted: {}", what, show(&t))),
+    }
+}
+fn show_batch(b: &BatchRequest) -> String {
+    format!("{:?}", b.iter().map(|r| view(r)).collect::<Vec<_>>())
+}
+fn show_req(r: &Request) -> String {
+    format!("{:?}", view(r))
+}
+
+/// `no_arrays`: JSON arrays in request position (the construct of C23-F2, which includes the empty batch) are not generated
+fn malformed_case(s: &mut dyn Src, no_arrays: bool) -> Case {
+    let kind = if no_arrays { [0usize, 1, 2, 4, 5, 6, 7, 8, 9][s.choose(9)] } else { s.choose(10) };
+    let js = gen_jstyle(s);
+    let pres = gen_presence(s);
+    let sub = s.choose(6);
+    let r = gen_req(s);
+    let c = match kind {
+        0 => {
+            // truncated JSON body (single or batch): a proper prefix of an object / array text
+            let single = req_json(&r, pres, js);
+            let body = if sub % 2 == 0 { single } else { format!("[{},{}]", single, req_json(&gen_req(s), pres, js)) };
+            let cut = s.choose(body.len());
+            let b = &body.as_bytes()[..cut];
+            let text = format!("truncated JSON body ({} of {} bytes): {:?}", cut, body.len(), lossy(b));
+            must_reject(text, "a truncated JSON body", decode_batch("application/json", b), show_batch).class("truncated-json")
+        }
+        1 => {
+            let (body, what) = wrong_type_json(s, &r, js);
+            let text = format!("wrong JSON type ({}): {}", what, body);
+            let c = if s.bool() {
+                must_reject(text, "a member of the wrong JSON type", decode_batch("application/json", body.as_bytes()), show_batch)
+            } else {
+                must_reject(text, "a member of the wrong JSON type", decode_json_single(&body, s.bool()), show_req)
+            };
+            c.class("wrong-json-type")
+        }
+        2 => {
+            let body = *pick(s, &["42", "\"{ a }\"", "null", "true", "1.5", "\"\""]);
+            let text = format!("top-level JSON scalar: {}", body);
+            must_reject(text, "a scalar body", decode_batch("application/json", body.as_bytes()), show_batch).class("scalar-body")
+        }
+        3 => {
+            let body = *pick(s, &["[]", "[ ]", " []", "[\n]", "[]\n"]);
+            let text = format!("empty batch: {:?}", body);
+            must_reject(text, "an empty batch", decode_batch("application/json", body.as_bytes()), show_batch).class("empty-batch")
+        }
+        4 => {
+            // batch with one bad element
+            let good = req_json(&r, pres, js);
+            let bad = match sub % 3 {
+                0 => (*pick(s, if no_arrays { &["42", "null", "\"{ a }\"", "true"][..] } else { &["42", "null", "\"{ a }\"", "true", "[]"][..] })).to_string(),
+                1 => wrong_type_json(s, &r, js).0,
+                _ => format!("[{}]", good),
+            };
+            let n = 1 + s.choose(3);
+            let at = s.choose(n + 1);
+            let mut els: Vec<String> = (0..n).map(|_| good.clone()).collect();
+            els.insert(at, bad);
+            let body = format!("[{}]", els.join(","));
+            let text = format!("batch with a malformed element at {}: {}", at, body);
+            must_reject(text, "a batch with a malformed element", decode_batch("application/json", body.as_bytes()), show_batch).class("bad-batch-element")
+        }
+        5 => {
+            // bad JSON inside variables= / extensions=
+            let key = *pick(s, &["variables", "extensions"]);
+            let m = if key == "variables" { &r.vars } else { &r.ext };
+            let mut good = String::new();
+            json_text(&Value::Object(m.clone()), js, &mut good);
+            let bad = match sub % 3 {
+                0 => good[..good.char_indices().map(|(i, _)| i).nth(s.choose(good.chars().count())).unwrap_or(0)].to_string(),
+                1 => (*pick(s, &WRONG_MAP)).to_string(),
+                _ => (*pick(s, &["{a:1}", "{'a':1}", "{\"a\":}", "{\"a\":1,}", "{}}", "nul", "{\"a\" 1}"])).to_string(),
+            };
+            let ps = PctStyle { plus_for_space: s.bool(), lower_hex: false, raw_legal: false, over_encode: false };
+            let mut qs = String::from("query=");
+            pct(&r.query, ps, &mut qs);
+            qs.push_str(&format!("&{}=", key));
+            pct(&bad, ps, &mut qs);
+            let text = format!("bad JSON in {}= ({:?}): {}", key, bad, qs);
+            must_reject(text, "bad JSON in a query-string member", parse_query_string(&qs).map_err(|e| e.to_string()), show_req).class("get-bad-json")
+        }
+        6 => {
+            // invalid percent escapes: unspecified class (RFC 3986 calls them invalid, the WHATWG form decoder keeps
+            // them literally) — accept Err, or Ok with exactly the WHATWG decoding; anything else is silent corruption
+            let ps = PctStyle { plus_for_space: false, lower_hex: false, raw_legal: false, over_encode: false };
+            let mut enc = String::new();
+            pct(&r.query, ps, &mut enc);
+            let bad = *pick(s, &["%", "%zz", "%4", "%g1", "%1g", "%%41", "%ff", "%c3", "%e2%82", "%41%", "%f0%9f%98"]);
+            let at = {
+                // insert between whole escapes / characters of the encoded text
+                let cuts: Vec<usize> = (0..=enc.len()).filter(|i| enc.is_char_boundary(*i) && !(*i >= 1 && &enc[*i - 1..*i] == "%") && !(*i >= 2 && &enc[*i - 2..*i - 1] == "%")).collect();
+                cuts[s.choose(cuts.len())]
+            };
+            enc.insert_str(at, bad);
+            let qs = format!("query={}", enc);
+            let text = format!("invalid percent escape {:?} in: {}", bad, qs);
+            let c = match parse_query_string(&qs) {
+                Err(_) => Case::pass(text).class("bad-percent-rejected"),
+                Ok(got) => {
+                    let want = whatwg_decode(&enc);
+                    if got.query == want && got.operation_name.is_none() && got.variables.is_empty() && got.extensions.is_empty() {
+                        Case::pass(text).class("bad-percent-kept-literally")
+                    } else {
+                        Case::fail(text, format!("accepted with content that is neither rejected nor the lenient decoding {:?}: {}", want, show_req(&got)))
+                    }
+                }
+            };
+            c.class("bad-percent")
+        }
+        7 => {
+            // multipart whose operations part is malformed
+            let (ops, what) = match sub % (if no_arrays { 2 } else { 3 }) {
+                0 => {
+                    let b = req_json(&r, pres, js);
+                    let cut = b.char_indices().map(|(i, _)| i).nth(s.choose(b.chars().count())).unwrap_or(0);
+                    (b[..cut].to_string(), "truncated")
+                }
+                1 => (wrong_type_json(s, &r, js).0, "wrong type"),
+                _ => ("[]".to_string(), "empty batch"),
+            };
+            let parts = operations_parts(ops, s.bool());
+            let boundary = gen_boundary(s, &parts);
+            let mp = write_multipart(&boundary, &parts, MpStyle { preamble: false, trailing_crlf: s.bool() });
+            let ct = format!("multipart/form-data; boundary={}", boundary);
+            let text = format!("multipart with {} operations: content-type={} body={:?}", what, ct, lossy(&mp));
+            must_reject(text, "a malformed operations part", decode_batch(&ct, &mp), show_batch).class("multipart-bad-operations")
+        }
+        8 => {
+            // multipart without an operations part, or cut before the closing delimiter
+            let mut parts = operations_parts(req_json(&r, pres, js), s.bool());
+            let boundary = gen_boundary(s, &parts);
+            let ct = format!("multipart/form-data; boundary={}", boundary);
+            if sub == 0 {
+                parts.remove(0);
+                let mp = write_multipart(&boundary, &parts, MpStyle { preamble: false, trailing_crlf: true });
+                let text = format!("multipart without operations part: content-type={} body={:?}", ct, lossy(&mp));
+                must_reject(text, "a multipart body without operations", decode_batch(&ct, &mp), show_batch).class("multipart-no-operations")
+            } else {
+                let mp = write_multipart(&boundary, &parts, MpStyle { preamble: false, trailing_crlf: false });
+                // everything up to (not including) the final "--" of the close delimiter is an incomplete body
+                let cut = s.choose(mp.len() - 1);
+                let b = &mp[..cut];
+                let text = format!("multipart body cut at {} of {}: content-type={} body={:?}", cut, mp.len(), ct, lossy(b));
+                must_reject(text, "a truncated multipart body", decode_batch(&ct, b), show_batch).class("multipart-truncated")
+            }
+        }
+        _ => {
+            // multipart content type without boundary / unparsable content type
+            let ct = *pick(s, &["multipart/form-data", "multipart/form-data; charset=utf-8", "multipart/", "/", "", "application/json; =", ";"]);
+            let body = req_json(&r, pres, js);
+            let text = format!("content type {:?} with body {}", ct, body);
+            must_reject(text, "a malformed content type", decode_batch(ct, body.as_bytes()), show_batch).class("bad-content-type")
+        }
+    };
+    c.nontrivial(true)
+}
+
+// ---------------------------------------------------------------------------------------------------------
+// batch execution order
+
+struct EchoQuery {
+    gates: Gates,
+}
+#[Object]
+impl EchoQuery {
+    /// completes when the schedule opens gate `r<id>`
+    async fn echo(&self, id: i32) -> i32 {
+        self.gates.wait(format!("r{}", id)).await;
+        id
+    }
+    /// completes immediately
+    async fn now(&self, id: i32) -> i32 {
+        id
+    }
+}
+
+#[derive(Clone, Copy, PartialEq, Debug)]
+enum Kind {
+    Gated,
+    GatedVar,
+    Immediate,
+    Invalid,
+}
+
+/// Decode a JSON batch of `kinds.len()` requests, execute it with gates opened in `order` (a permutation of the
+/// gated request indices) and compare the responses position by position.
+fn batch_exec_case(kinds: &[Kind], order: &[usize]) -> Case {
+    let gates = Gates::new();
+    let schema = Schema::build(EchoQuery { gates: gates.clone() }, EmptyMutation, EmptySubscription).finish();
+    let st = JStyle { ws: false, esc_non_ascii: false, esc_slash: false };
+    let reqs: Vec<Req> = kinds
+        .iter()
+        .enumerate()
+        .map(|(i, k)| {
+            let mut vars = Map::new();
+            let query = match k {
+                Kind::Gated => format!("{{ echo(id: {}) }}", i),
+                Kind::GatedVar => {
+                    vars.insert("v".into(), Value::from(i as i64));
+                    "query($v: Int!) { echo(id: $v) }".to_string()
+                }
+                Kind::Immediate => format!("{{ now(id: {}) }}", i),
+                Kind::Invalid => format!("{{ nosuch{} }}", i),
+            };
+            Req { query, op: None, vars, ext: Map::new() }
+        })
+        .collect();
+    let pres = Presence { op_none: 0, vars_empty: 0, ext_empty: 0, rot: 0 };
+    let body = format!("[{}]", reqs.iter().map(|r| req_json(r, pres, st)).collect::<Vec<_>>().join(","));
+    let text = format!("batch={} completion order of gated requests={:?}", body, order);
+    let batch = match decode_batch("application/json", body.as_bytes()) {
+        Err(e) => return Case::fail(text, format!("batch rejected: {}", e)),
+        Ok(b) => b,
+    };
+    let want_labels: Vec<String> = order.iter().map(|i| format!("r{}", i)).collect();
+    let mut next = 0usize;
+    let labels = want_labels.clone();
+    let sch = schema.clone();
+    let res = run_with_gates(
+        Box::pin(async move { sch.execute_batch(batch).await }),
+        &gates,
+        move |pending| {
+            let k = pending.iter().position(|(_, l)| labels.get(next).map(|w| w == l).unwrap_or(false)).unwrap_or(0);
+            next += 1;
+            k
+        },
+        10_000,
+    );
+    let (resp, opened) = match res {
+        None => return Case::fail(text, "execute_batch did not complete (stalled with no pending gate)"),
+        Some(x) => x,
+    };
+    if opened != want_labels {
+        return Case::fail(text, format!("harness: gates opened in order {:?}, wanted {:?}", opened, want_labels));
+    }
+    let rs = match resp {
+        BatchResponse::Batch(v) => v,
+        BatchResponse::Single(_) => return Case::fail(text, "a batch was answered with a single response"),
+    };
+    if rs.len() != kinds.len() {
+        return Case::fail(text, format!("{} requests, {} responses", kinds.len(), rs.len()));
+    }
+    for (i, (k, r)) in kinds.iter().zip(rs.iter()).enumerate() {
+        let data = serde_json::to_value(&r.data).unwrap_or(Value::Null);
+        let ok = match k {
+            Kind::Gated | Kind::GatedVar => r.errors.is_empty() && data == serde_json::json!({ "echo": i }),
+            Kind::Immediate => r.errors.is_empty() && data == serde_json::json!({ "now": i }),
+            Kind::Invalid => !r.errors.is_empty() && r.errors.iter().any(|e| e.message.contains(&format!("nosuch{}", i))),
+        };
+        if !ok {
+            let all: Vec<String> = rs.iter().map(|r| serde_json::to_string(r).unwrap_or_default()).collect();
+            return Case::fail(text, format!("response at position {} does not answer request {}: responses={:?}", i, i, all));
+        }
+    }
+    let gated = order.len();
+    let reordered = order.windows(2).any(|w| w[0] > w[1]);
+    Case::pass(text).nontrivial(gated >= 2 && reordered).class_if(reordered, "completion-out-of-order").class_if(kinds.iter().any(|k| *k == Kind::Invalid), "batch-with-error-response")
+}
+
+fn permutations(items: &[usize]) -> Vec<Vec<usize>> {
+    if items.len() <= 1 {
+        return vec![items.to_vec()];
+    }
+    let mut out = vec![];
+    for i in 0..items.len() {
+        let mut rest = items.to_vec();
+        let x = rest.remove(i);
+        for mut p in permutations(&rest) {
+            p.insert(0, x);
+            out.push(p);
+        }
+    }
+    out
+}
+
+pub fn run(ctx: &mut Ctx) {
+    ctx.rule = "random requests (query text over & = % + # quotes, controls and non-ASCII; operation name absent / name / arbitrary text; variables and \
+                extensions objects nested to depth 3 with arbitrary keys) written by own encoders as JSON body, batch element, GET query string and \
+                multipart operations part, each decoded form compared with the original; malformed variants must be rejected; batches executed under \
+                every / generated completion orders. non-trivial = query contains a transport-significant or non-ASCII character and variables are \
+                non-empty (all-forms), every malformed case, every batch execution with >=2 gated requests completing out of request order"
+        .into();
+    ctx.assume("numbers in variables / extensions are i64, u64 near u64::MAX, or floats with short exact decimal forms (float parsing precision belongs to C15/C16)");
+    ctx.assume("object keys are distinct; member order inside JSON objects is not significant (compared as JSON values)");
+    ctx.assume("`query` is always present; an absent or null operationName means none; absent / null / {} variables and extensions mean empty");
+    ctx.assume("GET encoding follows application/x-www-form-urlencoded: space as + or %20, everything outside unreserved (optionally pchar minus & + ;) percent-encoded as UTF-8");
+    ctx.assume("don't-care: a `%` not followed by two hex digits, or escapes decoding to invalid UTF-8, in a query string — RFC 3986 calls it invalid, the WHATWG \
+                form decoder keeps it literally / replaces with U+FFFD; accepted outcomes are Err, or Ok with exactly that lenient decoding");
+    ctx.assume("`query: null` and unknown / duplicate members are not generated (unspecified)");
+    ctx.assume("a multipart body cut anywhere before the final `--` of its close delimiter is malformed");
+
+    let f1_open = ctx.open("C23-F1");
+    if f1_open {
+        // generator switch: the GET form of the main stream carries no operationName pair
+        ctx.excluded("C23-F1");
+    }
+    let f2_open = ctx.open("C23-F2");
+    if f2_open {
+        // generator switch: the malformed stream writes no JSON array where a request object belongs (no empty batch)
+        ctx.excluded("C23-F2");
+    }
+    let n = ctx.tier.pick(150_000u32, 4_000_000);
+
+    // regression witness of C23-F1
+    {
+        let qs = "query=query+A%7Ba%7D+query+B%7Bb%7D&operationName=B";
+        let text = format!("GET {}", qs);
+        let c = match parse_query_string(qs) {
+            Err(e) => Case::fail(text, format!("rejected: {}", e)),
+            Ok(r) => {
+                if r.operation_name.as_deref() == Some("B") && r.query == "query A{a} query B{b}" {
+                    Case::pass(text)
+                } else if f1_open && r.operation_name.is_none() && r.query == "query A{a} query B{b}" {
+                    Case::known(text, vec!["C23-F1".into()])
+                } else {
+                    Case::fail(text, format!("decoded operation_name={:?} query={:?}", r.operation_name, r.query))
+                }
+            }
+        };
+        if ctx.check_case("witness", c.class("get-operationName"), serde_json::json!({ "query_string": qs })) {
+            return;
+        }
+    }
+
+    // regression witness of C23-F2
+    {
+        let text = "JSON body []".to_string();
+        let c = match decode_batch("application/json", b"[]") {
+            Err(_) => Case::pass(text),
+            Ok(b) => {
+                let empty = Req { query: String::new(), op: None, vars: Map::new(), ext: Map::new() };
+                let single_default = match &b {
+                    BatchRequest::Single(r) => differs(&empty, r).is_none(),
+                    _ => false,
+                };
+                if f2_open && single_default {
+                    Case::known(text, vec!["C23-F2".into()])
+                } else {
+                    Case::fail(text, format!("an empty batch was accepted: {}", show_batch(&b)))
+                }
+            }
+        };
+        if ctx.check_case("witness", c.class("empty-batch"), serde_json::json!({ "body": "[]" })) {
+            return;
+        }
+    }
+
+    ctx.stream("all-forms", n, 640, move |s| all_forms_case(s, !f1_open));
+    ctx.stream("get-opname-probe", ctx.tier.pick(2_000, 50_000), 384, move |s| get_opname_case(s, f1_open));
+    ctx.stream("malformed", 2 * n, 512, move |s| malformed_case(s, f2_open));
+    ctx.stream("array-request-probe", ctx.tier.pick(2_000, 50_000), 512, move |s| array_request_case(s, f2_open));
+
+    // batch execution: every completion order of every kind assignment up to 5 (thorough: 6) requests (bounded-exhaustive) …
+    let t0 = Instant::now();
+    let mut count = 0u64;
+    let kinds_all = [Kind::Gated, Kind::GatedVar, Kind::Immediate, Kind::Invalid];
+    let max_n = ctx.tier.pick(5usize, 6);
+    let mut complete = true;
+    'outer: for n in 1..=max_n {
+        for code in 0..4usize.pow(n as u32) {
+            let kinds: Vec<Kind> = (0..n).map(|i| kinds_all[(code / 4usize.pow(i as u32)) % 4]).collect();
+            let gated: Vec<usize> = (0..n).filter(|i| matches!(kinds[*i], Kind::Gated | Kind::GatedVar)).collect();
+            for order in permutations(&gated) {
+                count += 1;
+                if ctx.check_case("batch-order-enum", batch_exec_case(&kinds, &order), serde_json::json!({"kinds": format!("{:?}", kinds), "order": order})) {
+                    complete = false;
+                    break 'outer;
+                }
+            }
+        }
+    }
+    ctx.enumerated("batch-order-enum", count, complete, t0);
+    // … and generated larger batches
+    ctx.stream("batch-order", ctx.tier.pick(20_000, 500_000), 48, |s| {
+        let n = 2 + s.choose(7);
+        let kinds: Vec<Kind> = (0..n).map(|_| [Kind::Gated, Kind::GatedVar, Kind::Immediate, Kind::Invalid][s.weighted(&[5, 3, 1, 1])]).collect();
+        let mut gated: Vec<usize> = (0..n).filter(|i| matches!(kinds[*i], Kind::Gated | Kind::GatedVar)).collect();
+        // index 0 = reverse order (the simplest adversarial schedule), else a generated permutation
+        let order = if s.choose(3) == 0 {
+            gated.reverse();
+            gated
+        } else {
+            let mut o = vec![];
+            while !gated.is_empty() {
+                o.push(gated.remove(s.choose(gated.len())));
+            }
+            o
+        };
+        batch_exec_case(&kinds, &order)
+    });
+
+    ctx.floor("query-with-transport-specials", 2_000);
+    ctx.floor("nested-variables", 2_000);
+    ctx.floor("operation-name", 2_000);
+    ctx.floor("truncated-json", 500);
+    ctx.floor("bad-percent", 500);
+    ctx.floor("completion-out-of-order", 500);
+    ctx.floor("get-operationName", 500);
+    ctx.floor("array-in-request-position", 500);
 }
